@@ -10,6 +10,7 @@ of each call is a dict {"r": [kind, fields...], ...extras}.
     Runs:leading-run-lost, Chunk:negative-size-no-panic, Chunk:size-overflow-panic,
     WithStack:not-idempotent          (prefixed with the package tag, e.g. "xslices:")
 """
+import functools
 import itertools
 import math
 from collections import Counter
@@ -177,6 +178,7 @@ SIG = {
     "xsort.Reverse": ("OReverse", ["rel", "z", "z"]), "xsort.LessCompare": ("OLessCompare", ["rel", "z", "z"]),
     "xsort.OrderedLess": ("OOrderedLess", ["z", "z"]),
     "xsort.SliceIsSorted": ("OSliceIsSorted", ["rel", "zl"]),
+    "xsort.Slice": ("OSlice", ["rel", "zl"]), "xsort.SliceStable": ("OSliceStable", ["rel", "zl"]),
     "xsort.Search": ("OSearch", ["rel", "zl", "z"]),
     "xsort.Merge": ("OMerge", ["rel", "zll"]),
     "xsort.MergeSlices": ("OMergeSlices", ["rel", "z", "zll"]),
@@ -509,6 +511,22 @@ def oracle_call(op, ob):
         if strict_weak(less, set(a[1])):
             expect("bool", sorted_by(less, a[1]))
         _unchanged(name, ob, a[1], fails)
+    elif fn in ("xsort.Slice", "xsort.SliceStable"):
+        # sort.Slice / sort.SliceStable: a sorted rearrangement of x; SliceStable keeps equal elements in their original order
+        less, x = rel_fn(a[0]), a[1]
+        if pan:
+            bad("unexpected-panic", "panicked (%s)" % ob.get("msg"))
+        elif r[0] != "list" or Counter(r[1]) != Counter(x):
+            bad("not-a-permutation", "x afterwards is %r" % (r[1:],))
+        elif a[0][0] == "keylt" or strict_weak(less, set(x)):      # a/d < b/d is a strict weak order for every d != 0
+            out = r[1]
+            if not sorted_by(less, out):
+                bad("not-sorted", "x afterwards is %r" % out)
+            elif fn == "xsort.SliceStable":
+                # python's sort is stable; independent of the Coq model (insertion sort)
+                want = sorted(x, key=functools.cmp_to_key(lambda p, q: -1 if less(p, q) else 1 if less(q, p) else 0))
+                if out != want:
+                    bad("not-stable", "x afterwards is %r; keeping equal elements in their original order gives %r" % (out, want))
     elif fn == "xsort.Search":
         less, x, item = rel_fn(a[0]), a[1], a[2]
         if strict_weak(less, set(x) | {item}) and sorted_by(less, x):
@@ -931,6 +949,47 @@ class XSortSpec(PureSpec):
     package = "xsort"
     quick_per_fn = 70
 
+    def sort_ops(self, rng, tier, fn):
+        """The larger inputs of Slice / SliceStable; ALL of them are part of every run (see universes)."""
+        def sort_input(n, d):
+            ad = abs(d)
+            nkeys = rng.choice([1, 2, 3, 5, max(1, n // 2), max(1, n), 4 * max(1, n)])
+            shape = rng.choice(["rand", "rand", "rand", "asc", "desc", "pipe", "allequiv", "sawtooth"])
+            keys = [rng.randrange(nkeys) for _ in range(n)]
+            if shape == "asc":
+                keys.sort()
+            elif shape == "desc":
+                keys.sort(reverse=True)
+            elif shape == "pipe":
+                keys = sorted(keys[:n // 2]) + sorted(keys[n // 2:], reverse=True)
+            elif shape == "allequiv":
+                keys = [keys[0] if keys else 0] * n
+            elif shape == "sawtooth":
+                keys = [i % max(1, nkeys) for i in range(n)]
+            if ad == 1:
+                off = rng.choice([0, 0, nkeys // 2])
+                return [k - off for k in keys]
+            tags = list(range(n))                      # distinct tags (mod |d|): the items of a class are identifiable
+            if rng.random() < 0.5:
+                rng.shuffle(tags)
+            return [k * ad + (t % ad) for k, t in zip(keys, tags)]
+        ds = [1, -1, 4, -4, 10, -10, 100, -100]
+        reps = 1 if tier == "quick" else 12
+        ops = []
+        for n in list(range(0, 41)) * reps:
+            for d in (rng.choice(ds), rng.choice(ds[4:])):
+                ops.append([fn, ["keylt", d], sort_input(n, d)])
+        for n in ([64, 100, 257, 400] if tier == "quick" else [50, 64, 100, 128, 257, 400, 513, 700] * 6):
+            d = rng.choice(ds)
+            ops.append([fn, ["keylt", d], sort_input(n, d if abs(d) >= 100 or rng.random() < 0.5 else 100 * (1 if d > 0 else -1))])
+        return ops
+
+    def gen(self, rng, tier, scale):
+        cases = super().gen(rng, tier, scale)
+        for fn in ("xsort.Slice", "xsort.SliceStable"):
+            cases += batches(self.sort_ops(rng, tier, fn), 8)
+        return cases
+
     def universes(self, rng, tier):
         u = {}
         big = lambda f: [f() for _ in range(12 if tier == "quick" else 400)]
@@ -942,6 +1001,15 @@ class XSortSpec(PureSpec):
         u["xsort.SliceIsSorted"] = ([["xsort.SliceIsSorted", r, s] for r in ORDERS for s in all_slices(4)] +
                                     [["xsort.SliceIsSorted", r, s] for r in rels3[::11] for s in all_slices(3)],
                                     big(lambda: ["xsort.SliceIsSorted", ["keylt", rng.choice([1, 4])], rng.choice([sorted(rand_slice(rng)), rand_slice(rng, 6)])]))
+        # Slice / SliceStable: strict weak orders only (what sort.Slice does with an inconsistent less is nobody's contract).
+        # Small domain: every strict weak order on {1,2,3} x every slice up to length 5 (ties, but equal items are
+        # indistinguishable there).  Larger: items = key*d + tag under ["keylt", +-d] (natural d=1, reversed d=-1, coarse
+        # |d| = 4, 10, 100: many ties, the tag shows which of the equivalent items came first); every length 0..40 in
+        # every run (sort.Slice: insertion sort up to 12 items, pdqsort above; sort.SliceStable: insertion sort in blocks
+        # of 20 + symMerge), a few of some hundred items, and the shapes pdqsort treats specially (sorted, reversed,
+        # all equivalent, organ pipe, few distinct keys).
+        for fn in ("Slice", "SliceStable"):
+            u["xsort." + fn] = ([["xsort." + fn, r, s] for r in ORDERS for s in all_slices(5)], [])
         # Search: every order with ties, every sorted slice, every item; plus unsorted/inconsistent inputs (model comparison only)
         u["xsort.Search"] = ([["xsort.Search", r, s, x] for r in ORDERS for s in sorted_slices(5, rel_fn(r)) for x in ALPHA] +
                              [["xsort.Search", r, s, x] for r in rels3[::13] for s in all_slices(3) for x in ALPHA],
